@@ -385,6 +385,12 @@ func structuredLayouts() []layout {
 		{"id-space", "", "V 300", "A 48"},
 		{"id-dots", "", "v.300.main", "a.48"},
 		{"id-plus-parens", "", "V+(300)", "A[48]"},
+		{"id-slash", "", "video/1", "audio/1"},
+		{"id-slash-deep", "", "tracks/v/hd/1", "tracks/a/en/1"},
+		{"id-slash-prefix", "", "1/video", "1/audio"},
+		{"id-case", "", "Rep1", "rep1"},
+		{"id-trailing-dot", "", "V1.", "V1"},
+		{"id-trailing-space", "", "V1 ", "V1"},
 		{"id-long", "", "V" + strings.Repeat("0123456789", 20), "A" + strings.Repeat("abcdefghij", 20)},
 		{"asset-path-cyrillic", "x/\u0430\u0441\u0441\u0435\u0442/\u043e\u0434\u0438\u043d", "V1", "A1"},
 		{"asset-path-space-dots", "x/my asset v1.2", "V1", "A1"},
